@@ -30,7 +30,7 @@ register('C03', title='flank midpoints',
 register('C02', title='extrema of narrowband half-waves',
          deciding=['find_extrema'],
          rule='generated: all signal families (tie-rich quantised/clipped/plateau/zeroed and adversarial-tail families '
-              'over-sampled; 12 % as int16 / uint16 / int8 / uint8 counts that saturate at the rails of the type) x memory layout (contiguous / strided / read-only / reversed view) x fs x f_range x filter length (n_cycles | n_seconds | default) x boundary x first_extrema x pad. '
+              'over-sampled; 12 % as int16 / uint16 / int8 / uint8 counts that saturate at the rails of the type) x memory layout (contiguous / strided / read-only / reversed view) x fs x f_range x filter length (n_cycles | n_seconds | default) x boundary x first_extrema x pad; in 60 % of the cases an earlier call on the same signal and band with a much shorter / longer filter precedes the observed one. '
               'Oracle: independent band-pass with the documented arguments, explicit scan of the sign sequence, window '
               '[crossing, next crossing), first arg-max/min by explicit scan, un-pad, boundary, first_extrema trimming; exact '
               'comparison. Non-trivial = >=3 extrema of each kind and >=1 window whose extremum is not the window centre; '
@@ -54,7 +54,7 @@ PIPE_ASSUME = ['integer-typed samples denote real numbers: the reference models 
 register('C01', title='cycle table segmentation',
          deciding=['compute_features', 'compute_shape_features'],
          rule='generated: 13 signal families x fs x f_range x filter length (n_cycles | n_seconds | default) x boundary x pad '
-              'x centre x burst method (with min_n_cycles routing; stale fs / f_range keys inside burst_kwargs) x return_samples x sample type (float64; int64 counts; int8 / uint8 / int16 / uint16 / int32 counts whose swing is 0.3 / 0.8 / 1.2 of the type\'s range) x memory layout (contiguous, strided view, read-only), functional API and Bycycle.fit (also after an earlier fit of the same array object with another centring or other buffer content). Oracle: '
+              'x centre x burst method (with min_n_cycles routing; stale fs / f_range keys inside burst_kwargs) x return_samples x sample type (float64; int64 counts; int8 / uint8 / int16 / uint16 / int32 counts whose swing is 0.3 / 0.8 / 1.2 of the type\'s range) x memory layout (contiguous, strided view, read-only), functional API and Bycycle.fit (also after an earlier fit of the same array object with another centring or other buffer content); numeric arguments as Python floats / ints or NumPy scalars, f_range as tuple or list; sampling rates with a fractional part; second calls that share the option dicts - unchanged, or after the caller switched the kind of filter length (seconds <-> cycles) in its own dict. Oracle: '
               'row-wise order / inclusive midpoint / bounds / tiling clauses, and table == the peak-first alternating extrema '
               'sequence of the independent half-wave reference (row count = cycles); an exception inside the domain is a '
               'violation. Non-trivial = table with >= 3 rows and the signal is not a noiseless sine; distinct by SHA-1 of the '
@@ -106,7 +106,7 @@ register('C07', title='amplitude burst labels',
          rule='generated: amplitude-method workload on bursty families (burst on/offsets inside cycles), both centrings, '
               'amp_threshes, burst_fraction_threshold in {0,.3,.5,.8,1,default}, the 4 routing cases of min_n_cycles, '
               'min_burst_duration and filter_kwargs sometimes; plus synthetic burst_fraction columns with values on the threshold. '
-              'Oracle: independent run of the dual-threshold detector with the documented arguments -> inclusive-window fraction -> '
+              'Oracle: independent run of the dual-threshold detector with the documented arguments (the call\'s own fs / f_range, whatever stale keys the burst options carry) -> inclusive-window fraction, compared EXACTLY (count / n has one nearest float) -> '
               '>= threshold -> run filter with the documented count. Non-trivial = >= 1 cycle with 0 < fraction < 1 and both label '
               'values present (pipeline) / a value exactly on the threshold and both labels present (synthetic).',
          floors={'quick': {'nontrivial': 60, 'classes': {'routing_nontrivial': 15, 'tables_with_partial_cycles': 50,
@@ -181,7 +181,7 @@ register('C12', title='3-D group placement',
               '(axis=(0,1)) or per-slice flattened-epoch (axis 0/1) analysis with the options of that position (exact table equality); a '
               'table found elsewhere is reported with both positions; event log: every slice analysed exactly once. Non-trivial = n0 != n1 '
               'or both > 1; distinct by SHA-1 of the case.',
-         floors={'quick': {'nontrivial': 15, 'classes': {'cell:axis=(0, 1):kwargs=2d': 1, 'option_list_with_one_object_at_several_positions': 1,
+         floors={'quick': {'nontrivial': 15, 'classes': {'cell:axis=(0, 1):kwargs=2d': 1, 'distinct_2d_option_grid_on_unequal_extents': 1, 'option_list_with_one_object_at_several_positions': 1,
                                                          'second_call_with_the_same_option_objects': 1}}, 'thorough': {'nontrivial': 300}},
          assumptions=['per-signal / per-slice analyses are decided by C01-C07 and C13',
                       '2-D option list of matching shape with axis 0 or 1: ValueError or slice-wise (position-wise) pairing are both accepted'],
@@ -206,7 +206,7 @@ register('C14', title='objects = functional API, no stale state',
          rule='random histories of length 2-10 over {fit(sig_k), recompute_edges(r), load, edit a threshold, edit min_n_cycles, edit / delete '
               'burst options, set centre, in-place edit of a fitted array} on one Bycycle object with 2-4 signals (the same array objects are '
               're-used across the fits of a history), both methods and centrings, shorthand and full threshold '
-              'names; every history of length <= 3 (4 thorough) over a reduced alphabet, both methods (exhaustive); BycycleGroup 2-D / 3-D fits (all axis modes, unequal extents), then BycycleGroup.recompute_edges(r): every model must hold the functional recomputation of its own fitted table; refits on arrays of another shape. '
+              'names; every history of length <= 3 (4 thorough) over a reduced alphabet, both methods (exhaustive); BycycleGroup 2-D / 3-D fits (all axis modes, unequal extents), then BycycleGroup.recompute_edges(r): every model must hold the functional recomputation of its own fitted table; refits on arrays of another shape; in half of the group cases a threshold is edited in place on the group between fit and recompute_edges (the recomputation uses the current thresholds). '
               'Oracle: an executable model keeps the user\'s view of the settings (deep copies of what was passed / assigned); after every fit '
               'the table must equal that of a freshly constructed object with those settings and that of compute_features (expanded names); '
               'attribute access == columns; recompute_edges(r) == functional recompute_edges with thresholds lowered by r; models mirror '
@@ -236,7 +236,7 @@ register('C15', title='purity of the analysis functions',
 register('C16', title='edge recomputation',
          deciding=['recompute_edges'],
          rule='generated: tables from consistency detection on bursty / noisy families, both centrings, threshold settings x reductions '
-              '{0, .05, .1, .2}, functional and Bycycle.recompute_edges. Monitor (snapshot + post-condition): input table untouched and a new '
+              '{0, .05, .1, .2}, functional (tables with default or their own row labels) and Bycycle.recompute_edges (in half of the object cases a second recomputation on the same object, which must equal the functional recomputation of the held table with thresholds - r); BycycleGroup.recompute_edges. Monitor (snapshot + post-condition): input table untouched and a new '
               'object returned; only amp_consistency / period_consistency / is_burst may differ; non-edge cycles unchanged; each cycle adjacent '
               'to a maximal True-run of the INPUT labels holds the one-sided (next / last) reference values looking into the burst; labels == '
               'threshold-and-run reference on the edited table; with reduction 0 no burst cycle is lost. pandas chained-assignment warnings '
